@@ -280,7 +280,7 @@ theorem isFacetInwards_scale (l : ℝ) (hl : 0 < l) (face : Tri ℝ) (faces : Li
     isFacetInwards (triScale l face) (faces.map (triScale l)) = isFacetInwards face faces := by
   have hll : 0 < l * l := mul_pos hl hl
   simp only [isFacetInwards, triScale, vs_sub_vs mu0R, vs_add_vs mu0R, cross_vs_vs mu0R, norm_vs mu0R _ hll,
-    norm_vs mu0R _ hl, vd_vs_vs mu0R _ hll.ne', vd_vs_comm]
+    norm_vs mu0R _ hl, vd_vs_vs mu0R _ hll.ne', vd_vs_comm, pyMax_real, ← mul_max_of_nonneg _ _ hl.le]
   rw [← maskInsideTrimesh_scale l hl faces]
   congr 1
   apply V3.ext' <;> simp only [vs] <;> ring
